@@ -267,7 +267,9 @@ impl Store {
         };
 
         #[cfg(xs_verif)]
-        crate::verif::apoint("read.subscribed", 0).await;
+        let verif_read_id = crate::verif::seq("read") as u128;
+        #[cfg(xs_verif)]
+        crate::verif::apoint("read.subscribed", verif_read_id).await;
 
         // Only create done channel if we're doing historical processing
         let done_rx = if !options.tail {
@@ -290,7 +292,7 @@ impl Store {
                 let (tx_clone, store, options, gc_tx, done_tx) =
                     (tx_clone, store, options, gc_tx, done_tx);
                 #[cfg(xs_verif)]
-                crate::verif::point("hist.scan", 0);
+                crate::verif::point("hist.scan", verif_read_id);
                 let mut count = 0;
 
                 for frame in store.iter_frames(options.context_id, options.last_id.as_ref()) {
@@ -341,7 +343,7 @@ impl Store {
                 }
 
                 #[cfg(xs_verif)]
-                crate::verif::point("hist.done", 0);
+                crate::verif::point("hist.done", verif_read_id);
                 // Signal completion with the last seen ID and count
                 let _ = done_tx.send((last_id, count));
             });
@@ -369,7 +371,7 @@ impl Store {
 
                     let mut broadcast_rx = broadcast_rx;
                     #[cfg(xs_verif)]
-                    crate::verif::apoint("live.start", 0).await;
+                    crate::verif::apoint("live.start", verif_read_id).await;
                     while let Ok(frame) = broadcast_rx.recv().await {
                         #[cfg(xs_verif)]
                         crate::verif::apoint("live.recv", frame.id.to_u128()).await;
